@@ -97,6 +97,9 @@ func discharge(o *Obligation, dir string, id int, tier string, timeoutS int) {
 		o.Status, o.Solver, o.Ms, o.Output = r.status, r.solver, r.ms, fmt.Sprintf("[%s %s %dms]", r.solver, r.status, r.ms)
 		return
 	}
+	if o.ExpectedToFail && timeoutS > 4 {
+		timeoutS = 4
+	}
 	var results []solveResult
 	first := runSolver(solvers["z3-new"], dir, id, o.Script, timeoutS)
 	results = append(results, first)
